@@ -95,7 +95,10 @@ Record centry := { ce_sess : sess; ce_res : bool; ce_time : Z }.
 
 Record server := { sv_cfg : scfg; sv_store : list centry (* oldest first *) }.
 
-Inductive src := ByCache | ByTicket (k : Z) | ByPsk (k : Z).
+(* how the server found the session: in the cache by ID; under ticket key k (fresh Session object);
+   under ticket key k AND as the same session in the cache (the cached object is used, /repo 4da1727);
+   TLS 1.3 PSK ticket under key k *)
+Inductive src := ByCache | ByTicket (k : Z) | ByBoth (k : Z) | ByPsk (k : Z).
 Inductive sdec := SResume (s : sess) (o : src) | SFull | SAbort (alert : Z).
 
 Inductive outcome :=
@@ -274,7 +277,18 @@ Definition server_try_resume (cfg : scfg) (st : list centry) (acc : list Z) (h :
                        | None => None end in
     let '(st', found) :=
       match from_ticket with
-      | Some (k, s) => (st, Some (s, ByTicket k))
+      | Some (k, s) =>
+          (* /repo 4da1727: when the hello's session_id names a valid cache entry holding the very same
+             session (master secret, suite), the connection is bound to the cached object, so that its
+             failure invalidates the session for ID resumption too.  Before that commit the fresh
+             object was always used (finding ticket-connection-failure-not-propagated-to-cache). *)
+          if sv_usecache cfg && nz (h_sid h)
+          then let '(st1, r) := cache_get cfg now (h_sid h) st in
+               (st1, match r with
+                     | Some c => if (s_ms c =? s_ms s) && (s_suite c =? s_suite s)
+                                 then Some (c, ByBoth k) else Some (s, ByTicket k)
+                     | None => Some (s, ByTicket k) end)
+          else (st, Some (s, ByTicket k))
       | None =>
           if negb has_ticket && sv_usecache cfg && nz (h_sid h)
           then let '(st1, r) := cache_get cfg now (h_sid h) st in
@@ -466,7 +480,7 @@ Definition conn_delta (w : world) (cp : cparams) (sv : server) : delta :=
                 else
                   {| d_store := Some st1; d_used := used; d_newc := None;
                      d_conn := {| cr_srv := cp_srv cp;
-                                  cr_sobj := match o with ByCache => Some (s_sid s) | _ => None end;
+                                  cr_sobj := match o with ByCache | ByBoth _ => Some (s_sid s) | _ => None end;
                                   cr_cobj := cp_offer cp; cr_open := true; cr_ks := false; cr_kc := false |};
                      d_log := log0 v (Some h) (Some o) (ODone true true) (Some s) (Some (c_sess c)) used;
                      d_issue := None; d_bump := 4 |}
